@@ -88,6 +88,11 @@ pub fn run(ctx: &mut Ctx) {
         }
         let big_a: [u8; 32] = { let mut x: [u8; 32] = rng.arr(); x[31] |= 0xC0; x };   // certainly >= N
         emit_server(ctx, "server: random A >= N", &u, l.v, l.salt, b, big_a, &[rng.arr()], chal);
+        // values of the exchange fed back where another value belongs: A = B (the server's own key mirrored),
+        // A = the salt, A = the stored verifier; each must be refused with the proof determined by THESE inputs
+        emit_server(ctx, "server: A = B (the server's own public key mirrored back)", &u, l.v, l.salt, b, l.b_pub, &[l.m1, rng.arr(), [0u8; 20]], chal);
+        emit_server(ctx, "server: A = the salt", &u, l.v, l.salt, b, l.salt, &[l.m1], chal);
+        emit_server(ctx, "server: A = the stored verifier", &u, l.v, l.salt, b, l.v, &[l.m1], chal);
         // altered salt / B / credentials on the client: its proof must be refused by the server
         let variants: Vec<(&str, String, String, [u8; 32], [u8; 32])> = vec![
             ("salt bit changed", u.clone(), p.clone(), l.b_pub, arr32(&flip(&l.salt, rng.below(256) as usize))),
